@@ -24,21 +24,14 @@ func run(src string, vars map[string]cty.Value) {
 func main() {
 	m := func(v cty.Value) cty.Value { return v.Mark("s") }
 	n := func(i int64) cty.Value { return cty.NumberIntVal(i) }
-	for _, s := range []cty.Value{m(n(0)), m(n(5))} {
-		run(`true || t[s]`, map[string]cty.Value{"t": cty.TupleVal([]cty.Value{cty.False}), "s": s})
-		run(`true ? 1 : t[s]`, map[string]cty.Value{"t": cty.TupleVal([]cty.Value{n(7)}), "s": s})
-	}
-	for _, s := range []cty.Value{m(n(0)), m(n(1))} {
-		run(`false ? [t[s]] : l`, map[string]cty.Value{"t": cty.TupleVal([]cty.Value{n(1), cty.StringVal("a")}), "l": cty.ListVal([]cty.Value{n(1), n(2)}), "s": s})
-		run(`l[*][s]`, map[string]cty.Value{"l": cty.ListVal([]cty.Value{cty.TupleVal([]cty.Value{cty.StringVal("a"), n(1)})}), "s": s})
-	}
-	for _, s := range []cty.Value{m(cty.ListValEmpty(cty.Number)), m(cty.ListVal([]cty.Value{n(1)}))} {
-		run(`sum(s...)`, map[string]cty.Value{"s": s})
-	}
-	for _, s := range []cty.Value{m(cty.NullVal(cty.Bool)), m(cty.True)} {
-		run(`[for x in t : 1 if x]`, map[string]cty.Value{"t": cty.TupleVal([]cty.Value{cty.UnknownVal(cty.Bool), s})})
-	}
-	for _, s := range []cty.Value{m(cty.UnknownVal(cty.Number)), m(n(0))} {
-		run(`l[t[s]]`, map[string]cty.Value{"t": cty.TupleVal([]cty.Value{n(0), n(1)}), "l": cty.ListVal([]cty.Value{n(10), n(20)}), "s": s})
+	lt := cty.ListVal([]cty.Value{cty.TupleVal([]cty.Value{cty.StringVal("a"), n(1)})})
+	mo := cty.ObjectVal(map[string]cty.Value{"a": n(1), "b": cty.StringVal("x")})
+	for _, k := range []cty.Value{m(cty.UnknownVal(cty.String)), m(cty.StringVal("a"))} {
+		vars := map[string]cty.Value{"lt": lt, "mo": mo, "k": k, "tp": cty.TupleVal([]cty.Value{cty.StringVal("a"), n(1)})}
+		run(`mo[k]`, vars)
+		run(`tp[mo[k]]`, vars)
+		run(`lt[*][mo[k]]`, vars)
+		run(`lt[0][mo[k]]`, vars)
+		run(`[for x in lt : x[mo[k]]]`, vars)
 	}
 }
